@@ -1,5 +1,5 @@
 """C04 -- concurrent connections are demultiplexed; each is exported as if it were alone."""
-import collections, copy, json, sys
+import collections, copy, json, os, subprocess, sys
 from lib.common import *
 from lib import oracle, tlsgen, pool
 from lib.implrun import Impl, options_arg
@@ -50,6 +50,66 @@ def arrangement(rng, table, hist, k):
     if rng.randrange(3) == 0:
         conns.append(pool.noise(rng, hist, idx=k + 3))
     return conns
+
+
+RUNNER = ("import sys; sys.argv = ['tlexport'] + sys.argv[1:]\n"
+          "import warnings; warnings.simplefilter('ignore')\n"
+          "from tlexport import main; main.run()\n")
+
+
+def run_fresh(impl, capture, keylog, args):
+    """the same run in a new interpreter (nothing an earlier run left behind can be seen) -> (status, output bytes)"""
+    cap = os.path.join(impl.tmp, "fresh_in.pcapng")
+    out = os.path.join(impl.tmp, "fresh_out.pcapng")
+    with open(cap, "wb") as f:
+        f.write(capture)
+    if os.path.exists(out):
+        os.remove(out)
+    argv = ["-i", cap, "-o", out]
+    if keylog is not None:
+        kp = os.path.join(impl.tmp, "fresh_keys.log")
+        with open(kp, "w", newline="") as f:
+            f.write(keylog)
+        argv += ["-s", kp]
+    env = dict(os.environ, PYTHONPATH=REPO, PYTHONHASHSEED="0", PYTHONDONTWRITEBYTECODE="1")
+    p = subprocess.run([PY, "-c", RUNNER] + argv + list(args), cwd=impl.tmp, env=env, capture_output=True, timeout=300)
+    if p.returncode != 0 or not os.path.exists(out):
+        return "exit:%d" % p.returncode, None
+    with open(out, "rb") as f:
+        return "ok", f.read()
+
+
+def union_check(impl, conns, capture, keylog, args, solo_of=None, fresh=()):
+    """the merged export must be the union of the solo exports.  solo_of(cn) -> (capture, keylog) of the connection alone;
+    the connections in `fresh` are run alone in a new interpreter."""
+    st, out = impl.run(capture, keylog, args)
+    if st != "ok":
+        return "merged run ended with " + st
+    try:
+        merged = by_flow(out)
+        claimed = set()
+        for cn in conns:
+            if cn.kind == "noise":
+                continue
+            solo_cap, solo_keys = solo_of(cn) if solo_of else (capgen.to_pcapng(cn.packets), cn.s.keylog)
+            st1, out1 = run_fresh(impl, solo_cap, solo_keys, args) if any(cn is f for f in fresh) else impl.run(solo_cap, solo_keys, args)
+            if st1 != "ok":
+                return "solo run ended with " + st1
+            solo = by_flow(out1)
+            if len(solo) > 1:
+                return "a single connection is exported as %d flows" % len(solo)
+            for key, seq in solo.items():
+                if merged.get(key) != seq:
+                    got = merged.get(key, [])
+                    return "%s connection %d: %d packets when alone, %d in the interleaved capture%s" % (
+                        cn.kind, conns.index(cn), len(seq), len(got), "" if len(seq) != len(got) else " (contents differ)")
+                claimed.add(key)
+        extra = [k_ for k_ in merged if k_ not in claimed]
+        if extra:
+            return "%d flow(s) exported that belong to no connection" % len(extra)
+    except readback.Bad as e:
+        return "output not readable: %s" % e
+    return None
 
 
 def main():
@@ -127,6 +187,58 @@ def main():
             hist["model_runs"] += 1
             if mt != it:
                 disagreements.append({"what": "interleaved capture of %s" % [c.kind for c in conns], "model": mt[:100], "impl": it[:100], "capture": case.capture.hex(), "keylog": case.keylog, "args": args})
+    # connections the capture does not see to their end (it stops, or the peer goes away, in the middle of the handshake -- also in the
+    # middle of a handshake message that spans records): every cut point of the first connection, next to complete ones
+    from ref import synth
+    for i in range(2 if ck.tier == "quick" else 30):
+        kind = ["tls12-fragmented", "tls13-fragmented", "quic", "tls12-fragmented"][i % 4]
+        if kind == "quic":
+            a = pool.quic_conn(rng, hist, idx=1, napp=3)
+        elif kind == "tls13-fragmented":
+            a = pool.tls_conn(rng, table, hist, idx=1, code=0x1301, ver="TLS13", hs13_cuts=[rng.randrange(1, 400) for _ in range(4)], schedule="records", nrec=2, reclen=40)
+        else:
+            code = rng.choice([0xC02F, 0x002F, 0x009C, 0xCCA8])
+            a = pool.tls_conn(rng, table, hist, idx=1, code=code, ver="TLS12", shape="full", hs12_cuts=[rng.randrange(1, 720) for _ in range(4)], schedule="records", nrec=2, reclen=40)
+        others = [pool.tls_conn(rng, table, hist, idx=2, nrec=3, reclen=40), pool.quic_conn(rng, hist, idx=3, napp=3)][:rng.choice([1, 2])]
+        full = list(a.packets)
+        for j in sorted(set([1, 2, 3, 4, 5, 6, 7, 8] + [rng.randrange(1, len(full)) for _ in range(3)])):
+            if j >= len(full):
+                continue
+            a.packets = full[:j]
+            conns = [a] + [copy.copy(o) for o in others]
+            case = pool.build(rng, conns, hist)
+            # the complete connections alone are run in a new interpreter: whatever the unfinished one leaves behind in this process must not count
+            why = union_check(impl, conns, case.capture, case.keylog, [], fresh=conns[1:])
+            hist["unfinished=%s" % kind] += 1
+            ck.case(("c04-unfinished", i, j, case.capture[-40:]))
+            if why:
+                fails.append({"what": "%s connection cut after %d of %d packets, next to %s: %s" % (kind, j, len(full), [c.kind for c in conns[1:]], why),
+                              "capture": case.capture.hex(), "keylog": case.keylog, "args": []})
+            a.packets = full
+    # the secrets inside the capture: every connection's key-log lines in a Decryption Secrets Block of its own, right before the
+    # connection's first packet (no -s); alone: the same block in front
+    for i in range(3 if ck.tier == "quick" else 40):
+        k = rng.choice([2, 3, 4])
+        conns = arrangement(rng, table, hist, k)
+        conns = [c for c in conns if c.kind != "noise"]
+        case = pool.build(rng, conns, hist)
+        first = {}
+        for c in conns:
+            first[id(c.packets[0]["frame"])] = c
+        items = []
+        for p_ in case.packets:
+            c = first.get(id(p_["frame"]))
+            if c is not None:
+                items.append(("DSB", c.s.keylog))
+            items.append((p_["ts"], p_["frame"]))
+        cap = synth.pcapng(items)
+        args = ["-a"] if i % 2 else []
+        why = union_check(impl, conns, cap, None, args, solo_of=lambda cn: (synth.pcapng([("DSB", cn.s.keylog)] + [(q["ts"], q["frame"]) for q in cn.packets]), None))
+        hist["secrets=own-block-before-first-packet"] += 1
+        ck.case(("c04-dsb", i, cap[-40:]))
+        if why:
+            fails.append({"what": "%d connections %s, each with its secrets in a block of its own before its first packet, options %s: %s" % (len(conns), [c.kind for c in conns], args, why),
+                          "capture": cap.hex(), "keylog": None, "args": args})
     if m:
         ck.cov["oracle_queries"] = m.queries
         ck.cov["model_runs_skipped"] = m.skipped
@@ -136,7 +248,7 @@ def main():
     ck.cov["rule"] = ("2..6 TLS (all versions/suites) and QUIC connections plus unrelated traffic, merged packet by packet in a random order-preserving interleaving, endpoints "
                       "arranged as distinct hosts / same hosts with different client ports / same client address and port towards different servers / IPv4 and IPv6 mixed, key-log "
                       "lines of all connections shuffled together; for each connection the packets exported for its flow in the merged run must equal, frame for frame and time "
-                      "for time, the export of the capture containing that connection alone, and nothing else may be exported")
+                      "for time, the export of the capture containing that connection alone, and nothing else may be exported; also with a connection that the capture does not see to its end (every early cut point, fragmented handshake flights included) next to complete ones, and with every connection's secrets in a Decryption Secrets Block of its own right before its first packet")
     ck.cov["dimension_histogram"] = dict(sorted(hist.items()))
     if disagreements:
         ck.broken.append({"kind": "correspondence", "count": len(disagreements), "first": [{k: v for k, v in d.items() if k != "capture"} for d in disagreements[:4]]})
